@@ -51,7 +51,7 @@ func syncC09(repo string) (string, string, error) {
 		"http2.ClientConn.closeIfIdle": true, "http2.ClientConn.idleStateLocked": true, "http2.ClientConn.forgetStreamID": true,
 		"http2.ClientConn.ReserveNewRequest": true, "http2.ClientConn.decrStreamReservationsLocked": true,
 		"http3.RoundTripper.CloseIdleConnections": true,
-		"req.Transport.queueForDial": true, "req.Transport.maxIdleConnsPerHost": true, "req.Transport.tryPutIdleConn": true,
+		"req.Transport.queueForDial": true, "req.Transport.maxIdleConnsPerHost": true, "req.Transport.tryPutIdleConn": true, "req.connectMethod.key": true, "http2.shouldRetryDial": true,
 	}
 	consts := map[string]string{}
 	for _, f := range files {
